@@ -1489,6 +1489,9 @@ class LazyStackedTensorDict(TensorDictBase):
 
     @cache  # noqa: B019
     def _remove_batch_dim(self, vmap_level, batch_size, out_dim):
+        # out_dim is a position in the result, which has one more batch dim than self:
+        # a negative value counts from its end, as torch does for tensor outputs
+        out_dim = _maybe_correct_neg_dim(out_dim, None, ndim=len(self.batch_size) + 1)
         if self.hook_out is not None:
             # this is the hacked version. We just need to remove the hook_out and
             # reset a proper batch size
@@ -1529,6 +1532,9 @@ class LazyStackedTensorDict(TensorDictBase):
 
     @cache  # noqa: B019
     def _maybe_remove_batch_dim(self, funcname, vmap_level, batch_size, out_dim):
+        # out_dim is a position in the result, which has one more batch dim than self:
+        # a negative value counts from its end, as torch does for tensor outputs
+        out_dim = _maybe_correct_neg_dim(out_dim, None, ndim=len(self.batch_size) + 1)
         if self.hook_out is not None:
             # this is the hacked version. We just need to remove the hook_out and
             # reset a proper batch size
